@@ -73,7 +73,7 @@ func (defun *Defun) adjoin(b []byte) []byte {
 	b = append(b, ' ')
 	b = defun.args.adjoin(b)
 	for _, n := range defun.children {
-		b = append(b, indent[:n.left()+1]...)
+		b = newlineIndent(b, n.left())
 		b = n.adjoin(b)
 	}
 	return append(b, ')')
